@@ -170,6 +170,15 @@ partial def parseTP (s : CRat) (toks : List String) : Option (Gen.TPB CRat × Li
       match n.toNat? with
       | some n => fixed n rest (fun l => match l with | a :: t => some (Gen.TP_LadderAlt a t) | _ => none)
       | none => none
+  | "IdealGyrator" :: r :: rest =>
+      match parseCRat r with
+      | some r => some (Gen.TP_IdealGyrator r, rest)
+      | none => none
+  | "TPM" :: x :: a :: b :: c :: d :: rest =>
+      -- TPA / TPB / TPG / TPH / TPY / TPZ: a model given by its own matrix; `Bparams` = `self._params.Bparams`
+      match (Gen.convTable (K := CRat)).lookup (x ++ "_to_B"), [a, b, c, d].mapM parseCRat with
+      | some f, some [a, b, c, d] => some (⟨f ⟨a, b, c, d⟩ 1, 0, 0⟩, rest)
+      | _, _ => none
   | "Chain" :: rest =>
       match parseTP s rest with
       | some (a, rest) =>
